@@ -15,9 +15,11 @@ Open Scope nat_scope.
    on the state the paused run returned.  It is PROVED below
    (C15_update_idempotent_up_to_pert, C15_pause_resume_pert) for everything in
    __update except the PERT refresh, so that only
-   pert_stable c u : update_pert c (time u) u = u  remains as a hypothesis;
-   the harness checks it on the implementation at every step of every run it
-   explores (second __update call from the observer).
+   pert_stable c u : update_pert c (time u) u = u  remains; that is proved for
+   every acyclic network and every state (C15_pert_refresh_idempotent_any), so
+   the final theorem C15_pause_resume_any_acyclic_model has no side condition.
+   The harness still checks the idempotence on the implementation at every
+   step of every run it explores (second __update call from the observer).
 
    For EVERY configuration, options, incoming state, pause step k and final
    max_time m >= k (k beyond the makespan included: the paused run is then
@@ -88,6 +90,35 @@ Theorem C15_pause_resume_finish_to_start : forall c rank o s k m, k <= m -> fs_d
 Proof. intros c rank o s k m. exact (pause_resume_fs c rank o s k m). Qed.
 Print Assumptions C15_pause_resume_finish_to_start.
 
+(* THE UNCONDITIONAL FORM.  The PERT refresh is idempotent on its own result
+   for every acyclic network and EVERY state -- also when tasks held back by a
+   finish-to-finish or start-to-finish link have overshot their work and carry
+   negative remaining work, so that a relaxation of the forward pass can fail
+   and a node can be read while its earliest finish is still the value of the
+   previous update.  Proof: both runs take the same branches (est depends on
+   est and remaining work only); a ghost records for every node the edge that
+   set its values last and what the source looked like then; at the end of the
+   frontier iteration that source is unchanged since (it would have been
+   re-queued and would have set the node again), so a node's final earliest
+   finish is the same function of its last source's final earliest finish in
+   both runs; induction along the rank. *)
+Theorem C15_pert_refresh_idempotent_any : forall c rank, dag c rank -> forall (tm : nat) (x : pstate),
+  let u := update_pert c tm x in update_pert c tm u = u.
+Proof. exact pert_refresh_idempotent_any. Qed.
+Print Assumptions C15_pert_refresh_idempotent_any.
+
+(* hence, for EVERY acyclic model (any mix of the four dependency kinds, any
+   resources, rules, absences, components on disjoint trees), every incoming
+   state of a freshly initialised or placement-consistent project, every pause
+   step k and every final max_time m >= k: the resumed run returns exactly the
+   state of the uninterrupted run -- all logs, costs, time, status, live state *)
+Theorem C15_pause_resume_any_acyclic_model : forall c rank o s k m, k <= m -> dag c rank -> Forest c ->
+  (o_init_state o = true \/ PInv s) ->
+  let paused := fst (simulate c (with_max o k) s) in
+  fst (simulate c (resume_opts o m) paused) = fst (simulate c (with_max o m) s).
+Proof. intros c rank o s k m. exact (pause_resume_any c rank o s k m). Qed.
+Print Assumptions C15_pause_resume_any_acyclic_model.
+
 (* no phase reads project.status, which is the only field in which the state
    returned by the paused run differs from the uninterrupted loop state *)
 Theorem C15_status_is_never_read : forall c o x z,
@@ -117,3 +148,25 @@ Example C15_example :
   /\ costl (fst (simulate ex_cfg (resume_opts ex_opts 50) paused)) = costl ex_final
   /\ status (fst (simulate ex_cfg (resume_opts ex_opts 50) paused)) = StSuccess.
 Proof. vm_compute. repeat split. Qed.
+
+(* non-vacuity of the unconditional form: the finish-to-finish pair of
+   Model/Example.v (task 1 waits for task 0 with remaining work 0, -1, -2) is
+   an acyclic model with negative remaining work at `updated` snapshots; paused
+   at step 2 and resumed it gives the logs of the uninterrupted run *)
+Example C15_example_negative_remaining_work :
+  dag ex_ff_cfg (fun v => v)
+  /\ (let paused := fst (simulate ex_ff_cfg (with_max ex_ff_opts 2) (blank ex_ff_cfg)) in
+      let whole := fst (simulate ex_ff_cfg (with_max ex_ff_opts 50) (blank ex_ff_cfg)) in
+      rem (td paused 1) = (-1)%Q
+      /\ map (fun t => l_rem (tl (fst (simulate ex_ff_cfg (resume_opts ex_ff_opts 50) paused)) t)) [0; 1]
+         = map (fun t => l_rem (tl whole t)) [0; 1]
+      /\ status (fst (simulate ex_ff_cfg (resume_opts ex_ff_opts 50) paused)) = StSuccess).
+Proof.
+  split; [|vm_compute; repeat split].
+  constructor.
+  - intros u v k. destruct u as [|[|u]]; destruct v as [|[|v]]; cbn; intuition congruence.
+  - intros u e. destruct u as [|[|u]]; cbn; intuition (subst; cbn; auto with arith).
+  - intros v e. destruct v as [|[|v]]; cbn; intuition (subst; cbn; auto with arith).
+  - intros u e. destruct u as [|[|u]]; cbn; intuition (subst; cbn; auto with arith).
+  - intros v Hv. exact Hv.
+Qed.
